@@ -58,7 +58,7 @@ def gen_cases(ctx):
                                   "gomod": rng.choice(["plain"] * 6 + list(mockgen.GOMOD_SPELLINGS)),
                                   "srckind": rng.choice(["ordinary"] * 5 + (["main", "name-ne-dir", "modroot", "modroot"] if inpkg else ["name-ne-dir"])),
                                   "dir_spelling": [None, "relative", None, "dotslash"][(ci + rep) % 4] if inpkg else None,
-                                  "stale_outputs": (ci + rep) % 5 == 2})
+                                  "stale_outputs": (ci + rep) % 5 == 2, "golang": [None, "1.20", None, "1.21", None, "1.18"][(ci + rep) % 6]})
     n = 12 if ctx.tier == "quick" else 150
     for k in range(n):
         inpkg = rng.random() < 0.5
@@ -112,7 +112,7 @@ def eval_case(ctx, case):
         return [(case, Verdict.inconclusive("generated package rejected by the toolchain: " + (pre.err + pre.out)[-600:]))]
     ok, failures, r = mockgen.run_generation(ctx, root, info, case, ifaces)
     tags = ["template=" + case["template"], "formatter=" + case["formatter"], "placement=" + case["placement"], "gomod=" + case.get("gomod", "plain"),
-            "srckind=" + case.get("srckind", "ordinary")] + ["td." + k for k in (case.get("td") or {})] + (["td-split=" + case["td_split"]["opt"]] if case.get("td_split") else []) + (["cwd-via-symlink"] if case.get("via_symlink") else []) + (["dir=" + case["dir_spelling"]] if case.get("dir_spelling") else []) + (["outputs-exist-longer"] if case.get("stale_outputs") else [])
+            "srckind=" + case.get("srckind", "ordinary")] + ["td." + k for k in (case.get("td") or {})] + (["td-split=" + case["td_split"]["opt"]] if case.get("td_split") else []) + (["cwd-via-symlink"] if case.get("via_symlink") else []) + (["dir=" + case["dir_spelling"]] if case.get("dir_spelling") else []) + (["outputs-exist-longer"] if case.get("stale_outputs") else []) + (["go-directive=" + case["golang"]] if case.get("golang") else [])
     verdicts = []
     by_name = {i["name"]: i for i in ifaces}
     for name, ri in failures.items():
